@@ -30,5 +30,21 @@ pub uninterp spec fn str_of(s: Seq<char>) -> String;
 pub broadcast axiom fn axiom_str_of(s: Seq<char>)
     ensures (#[trigger] str_of(s))@ == s;
 
+// T5. Vectors are determined by their element sequence, and every sequence is the content of some Vec.
+pub broadcast axiom fn axiom_vec_ext<T>(a: Vec<T>, b: Vec<T>)
+    requires #[trigger] a@ == #[trigger] b@,
+    ensures a == b;
+pub uninterp spec fn vec_of<T>(s: Seq<T>) -> Vec<T>;
+pub broadcast axiom fn axiom_vec_of<T>(s: Seq<T>)
+    ensures (#[trigger] vec_of(s))@ == s;
+
+// T6. Display of a String / &str is its content (`x.to_string()`).
+pub broadcast axiom fn axiom_display_string(s: &String, r: String)
+    requires #[trigger] vstd::string::to_string_from_display_ensures::<String>(s, r),
+    ensures r@ == s@;
+pub broadcast axiom fn axiom_display_str(s: &str, r: String)
+    requires #[trigger] vstd::string::to_string_from_display_ensures::<str>(s, r),
+    ensures r@ == s@;
+
 } // mod tb
 pub use tb::*;
